@@ -111,6 +111,15 @@ def _alarm(*_a):
 
 def query(p, dt_ns: int, budget_s: int = 1):
     """-> ['ok', ns] | ['raise', enum] | ['budget']"""
+    try:
+        return _query(p, dt_ns, budget_s)
+    except Budget:
+        # the alarm went off while the timer was being disarmed (after the answer had been computed): a budget overrun
+        signal.setitimer(signal.ITIMER_REAL, 0)
+        return ['budget']
+
+
+def _query(p, dt_ns: int, budget_s: int = 1):
     signal.signal(signal.SIGALRM, _alarm)
     signal.setitimer(signal.ITIMER_REAL, budget_s)
     try:
